@@ -203,16 +203,10 @@ def run_case(case: Dict[str, Any], ctx) -> None:
             break
     if bad is None:
         ctx.count("grads:compared", len(gu))
-        for nme, a, b in zip(names, gu, gr):
-            if a is None and b is None:
-                continue
-            a = torch.zeros_like(b) if a is None else a
-            b = torch.zeros_like(a) if b is None else b
-            sc = max(float(b.abs().max()), float(a.abs().max()), 1e-30)
-            err = float((a - b).abs().max()) / sc
-            if not err <= 1e-5:
-                bad = f"gradient of {nme}: rel err {err:.3e}"
-                break
+        from ..instruments import grads_differ
+        gd = grads_differ(gu, gr, 1e-5, names)
+        if gd:
+            bad = "gradient of " + gd
     key_feat = "root-module-is-a-layer" if root_case else "container"
     if bad:
         why = explain(prog, params, inputs, outs_u, gu, names, ups, fwd, bwd, root_case, case, m)
